@@ -20,6 +20,7 @@ func main() {
 		file string
 	}{
 		{"arith", runArith, "ArithTables.lean"},
+		{"wire", runWire, "WireSchema.lean"},
 	}
 	for _, s := range steps {
 		p := filepath.Join(out, s.file)
